@@ -1,19 +1,17 @@
 //@ item: integer/src/gcd/lehmer.rs :: memory_requirement_up_to
-// The scratch of gcd_in_place: gneed(rhs_len / 2) Words (see annot/integer/memsize/gcd_in_place.rs).
-// Written for the code AFTER proposed_fixes/MEM1 (max with mul::memory_requirement_up_to(rhs_len, rhs_len / 2)); the
-// original body `div::memory_requirement_exact(lhs_len, rhs_len)` does NOT satisfy this contract (genuine defect).
+// The scratch of gcd_in_place: gneed(rhs_len / 2) Words (see annot/integer/memsize/gcd_in_place.rs): every Euclidean step
+// divides by at most rhs_len words, and all products inside a division by n words have a smaller factor of at most n / 2
+// words.  (Before the repair 1d55bba the body was `div::memory_requirement_exact(lhs_len, rhs_len)`, the scratch of the FIRST
+// division only, which does not satisfy this contract: b = 2^8448 - 1, a = 2^63 b + 2^4224 - 1 made UBig::gcd panic.)
 pub fn memory_requirement_up_to(lhs_len: usize, rhs_len: usize) -> Layout
 /*@
-    requires lhs_len >= rhs_len && rhs_len >= 2, rhs_len <= usize::MAX / 8,
+    requires rhs_len <= usize::MAX / 4,
     ensures lay_ok(ret, gneed(rhs_len as int / 2)), lay_wordish(ret),
 @*/
 {
     // Required memory:
-    // - temporary space for the divisions in the euclidean steps. The first one divides lhs_len by rhs_len words, but
-    //   every later one divides (at most) rhs_len words by a shorter divisor and can have a much LONGER quotient than
-    //   the first: all of them only multiply with a smaller factor of at most rhs_len / 2 words.
-    memory::max_layout(
-        div::memory_requirement_exact(lhs_len, rhs_len),
-        mul::memory_requirement_up_to(rhs_len, rhs_len / 2),
-    )
+    // - temporary space for the divisions in the euclidean steps: every later divisor has
+    //   at most rhs_len words, but its quotient can be longer than lhs_len - rhs_len words,
+    //   so the smaller factor of the products in a division is only bounded by rhs_len / 2
+    mul::memory_requirement_up_to(lhs_len, rhs_len / 2)
 }
